@@ -378,6 +378,29 @@ def _shift(x, loff, boff):
     return out
 
 
+def _subst_generics(raw, sub):
+    """copy of a body's JSON with type parameter names replaced in the places rules read types from (generic arguments of
+    callees, argument / destination / local types)"""
+    rx = re.compile(r"(?<![\w:])(" + "|".join(re.escape(k) for k in sorted(sub, key=len, reverse=True)) + r")(?![\w])")
+
+    def rep(x):
+        return rx.sub(lambda m: sub[m.group(1)], x)
+
+    def walk(x, key=None):
+        if isinstance(x, list):
+            return [walk(y, key) for y in x]
+        if isinstance(x, dict):
+            return {k: walk(v, k) for k, v in x.items()}
+        if isinstance(x, str) and key in ("args", "arg_tys", "dst_ty", "ty", "adt_args", "fn_ty", "full", "res_full"):
+            return rep(x)
+        return x
+
+    out = dict(raw)
+    out["blocks"] = walk(raw["blocks"])
+    out["locals"] = walk(raw["locals"])
+    return out
+
+
 def inline_raw(crate, body, depth=3, no_impls_of=("TS",), stack=(), budget=6000, memo=None):
     """raw JSON of `body` with the bodies of crate-local, statically resolved, non-recursive callees spliced in
     (helpers a function was split into are part of what the function does).  The call terminator stays in place as a
@@ -412,6 +435,11 @@ def inline_raw(crate, body, depth=3, no_impls_of=("TS",), stack=(), budget=6000,
             if len(blocks) + len(craw["blocks"]) > budget:
                 continue
             loff, boff = len(locals_), len(blocks)
+            # the callee's MIR is generic: rename its type parameters to what this call site passes for them
+            gp, ga = craw.get("generic_params") or [], (t.get("fn") or {}).get("args") or []
+            sub = {p: a for p, a in zip(gp, ga) if p != a and not p.startswith("'")} if len(gp) == len(ga) else {}
+            if sub:
+                craw = _subst_generics(craw, sub)
             locals_.extend(dict(l, inl=cb.path) for l in craw["locals"])
             ret_to = t["target"]
             for i, a in enumerate(t["args"]):
@@ -786,6 +814,9 @@ def text_emissions(body, into_ty=r"string::String|fmt::Formatter|dyn std::fmt::W
                 if len(cs) == 1 and cs[0]["kind"] == "const":
                     c = cs[0]["c"]
             txt = c.get("str") if c and c.get("str") is not None else ARG
+        elif fn_matches(t, r"<std::string::String as std::convert::From<&str>>::from$", r"String as .*From<&str>>::from$", r"str::<impl str>::to_owned$", r"borrow::ToOwned::to_owned$", r"string::ToString::to_string$") \
+                and t["args"] and (op_const(t["args"][0]) or {}).get("str") is not None and "String" in (t.get("dst_ty") or ""):
+            txt = op_const(t["args"][0])["str"]      # the text a buffer starts with
         elif fn_matches(t, r"string::String::push$") and len(t["args"]) > 1:
             c = op_const(t["args"][1]) or {}
             txt = chr(c["int"]) if isinstance(c.get("int"), int) else (c.get("char") if c.get("char") else ARG)
